@@ -114,14 +114,16 @@ theorem history_conserves (ops : List (Bool × Melange)) (s : Melange × Melange
 This is why non-canonical amounts must be stopped at the ledger's ingress (see `Props.C05.ingress_*`
 on the ledger model). -/
 theorem supply_noncanonical_wraps :
-    supply ⟨0, 5⟩ ⟨0, 18446744073709551615⟩ = (⟨0, 4⟩, none) := by decide
+    supply ⟨0, 5⟩ ⟨0, 18446744073709551615⟩ = (⟨0, 4⟩, none) := by rw [supply_eq]; decide
 
 /-- Generated obligation: the model's constant is the one in today's source. -/
 theorem gen_maxSupp : Generated.spice_MaxAmountPerSupplementaryCurrency = maxSupp.toNat := by decide
 
 /-! ### Non-vacuity -/
 example : Canon ⟨18446744073709551615, 1⟩ ∧ Canon ⟨0, 999999999999999999⟩ ∧
-    supply ⟨18446744073709551615, 1⟩ ⟨0, 999999999999999999⟩ = (⟨18446744073709551615, 1⟩, some .overflow) := by decide
-example : transfer ⟨0, 1⟩ ⟨1, 0⟩ ⟨0, 999999999999999999⟩ = (⟨0, 999999999999999999⟩, ⟨1, 0⟩, none) := by decide
+    supply ⟨18446744073709551615, 1⟩ ⟨0, 999999999999999999⟩ = (⟨18446744073709551615, 1⟩, some .overflow) := by
+  rw [supply_eq]; decide
+example : transfer ⟨0, 1⟩ ⟨1, 0⟩ ⟨0, 999999999999999999⟩ = (⟨0, 999999999999999999⟩, ⟨1, 0⟩, none) := by
+  rw [transfer_eq]; decide
 
 end Props.C05
